@@ -248,6 +248,14 @@ class Program:
                 inlined, renamed = inline_unknown_helpers(tree, modname, _BASELINE)
             except RecursionError:
                 inlined, renamed = [], {}
+            from .normalize import forward_substitute_temps, scalarise_records
+
+            n_sc = scalarise_records(tree)
+            if n_sc:
+                inlined = inlined + [f"scalarised {n_sc} record local(s)"]
+            n_fs = forward_substitute_temps(tree)
+            if n_fs:
+                inlined = inlined + [f"forward-substituted {n_fs} adjacent single-use temporaries / bool() tests"]
         _set_parents(tree)
         mod = Module(modname, path, rel, src, tree, trusted=trusted)
         mod.inlined = inlined  # type: ignore[attr-defined]
@@ -350,6 +358,33 @@ class Program:
         if qual not in m.funcs:
             raise AnalysisError(f"anchor function vanished: {m.name}:{qual}")
         return m.funcs[qual]
+
+    def inlined_view(self, fn: Func) -> Func:
+        """fn with its directly-called closures inlined (see inline.inline_closures); cached."""
+        cached = getattr(fn, "_sv_view", None)
+        if cached is not None:
+            return cached
+        from .inline import inline_closures
+        from .normalize import forward_substitute_temps
+
+        node, done = inline_closures(fn.node)
+        if not done:
+            fn._sv_view = fn  # type: ignore[attr-defined]
+            return fn
+        wrapper = ast.Module(body=[node], type_ignores=[])
+        forward_substitute_temps(wrapper)
+        _set_parents(wrapper)
+        view = Func(fn.module, fn.qual, node, cls=fn.cls, parent=fn.parent)
+        view.local_imports = dict(fn.local_imports)
+        for n in _walk_own(node):
+            if isinstance(n, (ast.FunctionDef, ast.AsyncFunctionDef)) and n.name in fn.children:
+                view.children[n.name] = Func(fn.module, fn.children[n.name].qual, n, parent=view)
+            elif isinstance(n, (ast.Import, ast.ImportFrom)):
+                pass
+        view.local_imports.update(_collect_imports([x for x in _walk_own(node) if isinstance(x, (ast.Import, ast.ImportFrom))], fn.module.name, getattr(fn.module, "is_pkg", False)))
+        view.inlined = done  # type: ignore[attr-defined]
+        fn._sv_view = view  # type: ignore[attr-defined]
+        return view
 
     def func_opt(self, modname: str, qual: str) -> Optional[Func]:
         try:
@@ -516,7 +551,15 @@ def enclosing_func_node(node: ast.AST):
 
 def norm(node: ast.AST) -> str:
     """Normalised source text of a construct (stable under re-formatting)."""
+    c = getattr(node, "_sv_norm", None)
+    if c is not None:
+        return c
     try:
-        return ast.unparse(node)
+        c = ast.unparse(node)
     except Exception:  # noqa: BLE001
-        return ast.dump(node)
+        c = ast.dump(node)
+    try:
+        node._sv_norm = c  # type: ignore[attr-defined]
+    except Exception:  # noqa: BLE001
+        pass
+    return c
